@@ -169,6 +169,15 @@ def api_documents(ctx: Ctx):
     t.merge_cells("A5:B5")
     d.add_sheet("Second", "Other", num_rows=3, num_cols=3)
     docs.append(("api-values", d))
+    # merges covering whole rows and whole columns, data around them
+    d = Document(num_rows=8, num_cols=3)
+    t = d.sheets[0].tables[0]
+    for r in range(8):
+        for c in range(3):
+            t.write(r, c, r * 10 + c if (r + c) % 2 else f"r{r}c{c}")
+    t.merge_cells("A2:C3")
+    t.merge_cells("A6:A8")
+    docs.append(("api-full-width-merge", d))
     d = Document(num_rows=6, num_cols=5)
     t = d.sheets[0].tables[0]
     for r in range(1, 6):
@@ -327,6 +336,11 @@ def run(ctx: Ctx) -> int:
     for name, p in docs:
         for acc in (False, True):
             results[f"{name}:{int(acc)}"] = cycle(ctx, name, p, acc, 2)
+    if ctx.quick:
+        # every other readable fixture once: one cycle, no accessors (the thorough tier does both modes, two cycles)
+        for name, p in readable:
+            if (name, p) not in chosen:
+                results[f"{name}:0:1cycle"] = cycle(ctx, name, p, False, 1)
     ctx.dist("documents_cycled", len(docs))
     ctx.sample({"documents": [n for n, _ in docs][:12], "outcomes": dict(list(results.items())[:8])})
     return common.finish(ctx, search)
